@@ -512,6 +512,11 @@ func Pure(p *core.Prog, r *core.Report) {
 			})
 		}
 		clause(viaFmt == "", "EnumCase:string-content", p.Pos(f.Pos()), "string-kinded values are compared by their content", "the string form of a string-kinded value is taken with fmt ("+viaFmt+"), which calls its String() method: for `type S string` with a String() method, S(\"a\") is a member of []S{\"b\"} whenever both print alike")
+		if why := foldOnlyValidRunes(p, f); why != "" {
+			clause(false, "EnumCase:fold-valid-runes", p.Pos(f.Pos()), "", why)
+		} else {
+			clause(true, "EnumCase:fold-valid-runes", p.Pos(f.Pos()), "strings.EqualFold only sees runes of which neither is a lone invalid byte", "")
+		}
 		clause(fold, "EnumCase:fold", p.Pos(f.Pos()), "case-insensitive comparison through strings.EqualFold", "case folding for strings is gone")
 	}
 	// ---- UniqueItems -------------------------------------------------------------------------------
@@ -883,4 +888,256 @@ func isValueEqualityPredicate(p *core.Prog, g *ssa.Function) bool {
 		}
 	}
 	return false
+}
+
+// foldOnlyValidRunes: in the rune-by-rune folding helper, strings.EqualFold (directly or through a helper) is only
+// reached on paths that have established, for *each* of the two operands, that its leading rune is not a lone
+// invalid byte — strings.EqualFold decodes every invalid byte as U+FFFD, so one unchecked side makes "\xff" equal
+// to "\uFFFD". Returns "" when the requirement holds or does not apply, else a description.
+func foldOnlyValidRunes(p *core.Prog, root *ssa.Function) string {
+	reachesFold := map[*ssa.Function]bool{}
+	var reaches func(g *ssa.Function, d int) bool
+	reaches = func(g *ssa.Function, d int) bool {
+		if g == nil || d > 4 {
+			return false
+		}
+		if v, ok := reachesFold[g]; ok {
+			return v
+		}
+		reachesFold[g] = false
+		if core.QualName(g) == "strings.EqualFold" {
+			reachesFold[g] = true
+			return true
+		}
+		if !p.InSubject(g) {
+			return false
+		}
+		res := false
+		core.EachInstr(g, func(i ssa.Instruction) {
+			if c, ok := i.(ssa.CallInstruction); ok && reaches(core.StaticCallee(c), d+1) {
+				res = true
+			}
+		})
+		reachesFold[g] = res
+		return res
+	}
+	// the function that decodes runes of two strings: found below root
+	var host *ssa.Function
+	var visit func(g *ssa.Function, d int)
+	seen := map[*ssa.Function]bool{}
+	visit = func(g *ssa.Function, d int) {
+		if g == nil || seen[g] || d > 4 || !p.InSubject(g) {
+			return
+		}
+		seen[g] = true
+		n := 0
+		core.EachInstr(g, func(i ssa.Instruction) {
+			if c, ok := i.(ssa.CallInstruction); ok {
+				if h := core.StaticCallee(c); h != nil {
+					if core.QualName(h) == "utf8.DecodeRuneInString" {
+						n++
+					}
+					visit(h, d+1)
+				}
+			}
+		})
+		if n >= 2 {
+			host = g
+		}
+	}
+	visit(root, 0)
+	if host == nil {
+		return "" // no rune-by-rune folding: nothing to require
+	}
+	var decs []*ssa.Call
+	var targets []*ssa.Call
+	core.EachInstr(host, func(i ssa.Instruction) {
+		c, ok := i.(*ssa.Call)
+		if !ok {
+			return
+		}
+		h := core.StaticCallee(c)
+		if h == nil {
+			return
+		}
+		if core.QualName(h) == "utf8.DecodeRuneInString" {
+			decs = append(decs, c)
+		} else if reaches(h, 0) {
+			targets = append(targets, c)
+		}
+	})
+	if len(decs) != 2 || len(targets) == 0 {
+		return ""
+	}
+	// which decode a value belongs to
+	ofDec := func(v ssa.Value) int {
+		for {
+			switch x := v.(type) {
+			case *ssa.Extract:
+				for k, d := range decs {
+					if x.Tuple == ssa.Value(d) {
+						return k
+					}
+				}
+				return -1
+			case *ssa.Convert:
+				v = x.X
+				continue
+			}
+			return -1
+		}
+	}
+	// does the atom (cond, sense) establish "operand k is not a lone invalid byte"?
+	establishes := func(cond ssa.Value, sense bool) int {
+		switch x := cond.(type) {
+		case *ssa.BinOp:
+			k := ofDec(x.X)
+			if k < 0 {
+				k = ofDec(x.Y)
+			}
+			if k < 0 {
+				return -1
+			}
+			// rune == RuneError / size == 1 being false, or their != being true
+			if (x.Op == token.EQL && !sense) || (x.Op == token.NEQ && sense) {
+				return k
+			}
+		case *ssa.Call:
+			// a predicate of the package over (rune, size) of one decode: "is invalid" answered false
+			if h := core.StaticCallee(x); h != nil && p.InSubject(h) && !sense {
+				k := -1
+				for _, a := range x.Call.Args {
+					if kk := ofDec(a); kk >= 0 {
+						k = kk
+					}
+				}
+				return k
+			}
+		}
+		return -1
+	}
+	start := decs[1].Block()
+	if decs[0].Block() != start && decs[0].Block().Dominates(decs[1].Block()) == false {
+		start = decs[0].Block()
+	}
+	bad := ""
+	for _, tg := range targets {
+		var dfs func(b *ssa.BasicBlock, known [2]bool, onPath map[*ssa.BasicBlock]bool)
+		dfs = func(b *ssa.BasicBlock, known [2]bool, onPath map[*ssa.BasicBlock]bool) {
+			if bad != "" || onPath[b] {
+				return
+			}
+			if b == tg.Block() {
+				// the decision may travel as a boolean argument: when the callee only folds under `!param`, what the
+				// argument being false implies counts as established
+				if h := core.StaticCallee(tg); h != nil && p.InSubject(h) {
+					for k, prm := range h.Params {
+						if k >= len(tg.Call.Args) {
+							continue
+						}
+						if bt, ok := prm.Type().Underlying().(*types.Basic); !ok || bt.Kind() != types.Bool {
+							continue
+						}
+						guardsFold := false
+						core.EachInstr(h, func(j ssa.Instruction) {
+							if c, ok := j.(ssa.CallInstruction); ok && reaches(core.StaticCallee(c), 1) {
+								for _, cd := range core.CondsAt(j.Block()) {
+									if cd.Value == ssa.Value(prm) && !cd.Sense {
+										guardsFold = true
+									}
+								}
+							}
+						})
+						if guardsFold {
+							for _, d := range falseImplies(tg.Call.Args[k], establishes, 0) {
+								known[d] = true
+							}
+						}
+					}
+				}
+				if !known[0] || !known[1] {
+					side := "first"
+					if known[0] {
+						side = "second"
+					}
+					bad = "strings.EqualFold is reached (" + p.Pos(tg.Pos()) + ") on a path that has not excluded a lone invalid byte at the head of the " + side + " operand: it is decoded as U+FFFD there, so \"\\xff\" folds to \"\\uFFFD\" and EnumCase(\"caf\\xc3\", [\"CAF\\uFFFD\"], false) finds a member"
+				}
+				return
+			}
+			onPath[b] = true
+			defer delete(onPath, b)
+			if ifi, ok := b.Instrs[len(b.Instrs)-1].(*ssa.If); ok && len(b.Succs) == 2 {
+				cond, flip := ifi.Cond, false
+				for {
+					if u, ok := cond.(*ssa.UnOp); ok && u.Op == token.NOT {
+						cond, flip = u.X, !flip
+						continue
+					}
+					break
+				}
+				for si, s := range b.Succs {
+					sense := (si == 0) != flip
+					k2 := known
+					// a φ of short-circuit values: take the atoms of the edge values that decide this outcome
+					if ph, isPhi := cond.(*ssa.Phi); isPhi && ph.Block() == b {
+						_ = ph
+					} else if k := establishes(cond, sense); k >= 0 {
+						k2[k] = true
+					}
+					dfs(s, k2, onPath)
+				}
+				return
+			}
+			for _, s := range b.Succs {
+				dfs(s, known, onPath)
+			}
+		}
+		dfs(start, [2]bool{}, map[*ssa.BasicBlock]bool{})
+	}
+	return bad
+}
+
+// falseImplies: which of the two operands are known not to start with a lone invalid byte when the boolean value v
+// is false (v: an atom, or a short-circuit φ of atoms).
+func falseImplies(v ssa.Value, establishes func(ssa.Value, bool) int, d int) []int {
+	if d > 4 {
+		return nil
+	}
+	if k := establishes(v, false); k >= 0 {
+		return []int{k}
+	}
+	ph, ok := v.(*ssa.Phi)
+	if !ok {
+		return nil
+	}
+	var inter map[int]bool
+	for i, e := range ph.Edges {
+		if c, isC := e.(*ssa.Const); isC && c.Value != nil && c.Value.ExactString() == "true" {
+			continue // this edge cannot make v false
+		}
+		set := map[int]bool{}
+		for _, k := range falseImplies(e, establishes, d+1) {
+			set[k] = true
+		}
+		pred := ph.Block().Preds[i]
+		for _, cd := range condsOnEdge(pred, ph.Block()) {
+			if k := establishes(cd.Value, cd.Sense); k >= 0 {
+				set[k] = true
+			}
+		}
+		if inter == nil {
+			inter = set
+		} else {
+			for k := range inter {
+				if !set[k] {
+					delete(inter, k)
+				}
+			}
+		}
+	}
+	var out []int
+	for k := range inter {
+		out = append(out, k)
+	}
+	return out
 }
